@@ -301,6 +301,7 @@ def run(P, R, tier):
     readout_rule(P, R)
     logkdone_rule(P, R)
     mbnorm_rule(P, R)
+    loopindex_rule(P, R)
 
 
 # ------------------------------------------------------------------------------------------ log K(T, P)
@@ -933,3 +934,80 @@ def mbnorm_rule(P, R):
                     "are counted twice in the H(0) / O(0) totals" % (node[1], T.text(hw[0])[:60]), file=f["file"], line=node[1], function=f["q"])
     else:
         R.ok(RULE, "tidy_species", "division at line %d is applied to every listed valence state" % node[1])
+
+
+def loopindex_rule(P, R):
+    """Sums over species, masters, unknowns ... are loops `for (v = 0; v < X.size(); v++)` that read X[v].  Inside such a loop a subscript
+    X[w] with a variable w that is not the induction variable of any enclosing for-loop reads an element unrelated to the iteration:
+    system_total_elt_secondary built the element list of species j from s_x[i], i being the running number of the surface charge, and
+    SYS of a valence state lost its diffuse-layer part.  Program-wide census; X is compared as written (this->s_x and other.s_x differ)."""
+    RULE = "C01.loopindex"
+    R.rule(RULE, "inside a loop over X.size() the vector X is subscripted by for-loop induction variables only", minimum=1)
+
+    def vec(n):
+        n = T.strip_casts(n)
+        return " ".join(T.text(n).split()) if T.is_node(n) and n[0] == "Member" else None
+
+    def induction(lp):
+        """variables assigned in the init and stepped in the increment of a for statement"""
+        out = set()
+        for part in (lp[2], lp[4]):
+            if T.is_node(part):
+                for t, how, line, w in T.writes(part):
+                    tt = T.strip_casts(t)
+                    if T.is_node(tt) and tt[0] == "Ref" and tt[2] == "local":
+                        out.add(tt[3])
+                if part[0] == "Decl":
+                    for d in part[2]:
+                        if isinstance(d, list) and d and isinstance(d[0], str):
+                            out.add(d[0])
+        return out
+
+    def bound(lp):
+        c = T.strip_casts(lp[3]) if T.is_node(lp[3]) else None
+        if not (T.is_node(c) and c[0] == "Bin" and c[2] in ("<", "<=")):
+            return None
+        for y in T.walk(c[4]):
+            if y[0] == "Call" and T.callee_name(y) == "size" and T.call_obj(y) is not None:
+                return vec(T.call_obj(y))
+        return None
+    n = 0
+    for k, g in sorted(P.functions.items(), key=lambda kv: kv[1]["q"]):
+        def rec(node, ind, vecs):
+            nonlocal n
+            if not T.is_node(node):
+                return
+            if node[0] == "For":
+                i2 = ind | induction(node)
+                b = bound(node)
+                v2 = vecs | ({b} if b else set())
+                for ch in T.children(node):
+                    rec(ch, i2, v2)
+                return
+            if node[0] in ("While", "Do"):
+                # `int j = i + 1; while (j < n && ...) { ...; j++; }`: variables tested by the loop and stepped in its body
+                tested = {y[3] for y in T.walk(node[2]) if y[0] == "Ref" and y[2] == "local"} if T.is_node(node[2]) else set()
+                stepped = set()
+                for t, how, line, w in T.writes(node[3]):
+                    tt = T.strip_casts(t)
+                    if how in ("++", "op=") and T.is_node(tt) and tt[0] == "Ref" and tt[2] == "local":
+                        stepped.add(tt[3])
+                i2 = ind | (tested & stepped)
+                for ch in T.children(node):
+                    rec(ch, i2, vecs)
+                return
+            if node[0] == "Call" and T.callee_name(node) == "operator[]" and len(node[4]) == 2 and vecs:
+                nm, idx = vec(node[4][0]), T.strip_casts(node[4][1])
+                if nm in vecs and T.is_node(idx) and idx[0] == "Ref" and idx[2] == "local":
+                    n += 1
+                    if idx[3] not in ind:
+                        R.violation(RULE, "%s@%d" % (g["q"].split("::")[-1], node[1]), "inside a loop over %s.size() the element %s[%s] is read, but `%s` is not the induction variable of an "
+                                    "enclosing for-loop: the element does not belong to the iteration" % (nm, nm, idx[3], idx[3]), file=g["file"], line=node[1], function=g["q"])
+            for ch in T.children(node):
+                rec(ch, ind, vecs)
+        rec(g["body"], set(), set())
+    R.table("C01.loopindex.census", {"subscripts_checked": n})
+    if n >= 1500:
+        R.ok(RULE, "census", "%d subscripts inside loops over the same vector checked" % n)
+    else:
+        R.anchor_missing(RULE, "only %d subscripts inside loops over the same vector found (1700 expected)" % n)
